@@ -1,6 +1,6 @@
 """C13 - one exact rule maps GraphQL type modifiers to Option / Vec nesting.
 Monitor: field types in the emitted token stream (parsed with syn by gendrv --inspect);
-oracle: an independent recursive rule. The space (62 expressions x kinds x positions x 2 schema
+oracle: an independent recursive rule. The space (62 expressions x kinds x positions x schema
 formats) is finite and enumerated completely on every run."""
 import itertools
 import os
@@ -15,7 +15,8 @@ LEVEL = "exploration"
 RULE = ("all 62 type expressions of list depth 0..4 (every placement of `!`) x named type kind {Int, Float, String, Boolean, ID, "
         "custom scalar, enum, object, interface, union | input object} x position {response field, variable, input-object "
         "field (with schema-level default values), @oneOf member (nullable expressions only), object field whose interface declares "
-        "it without any `!` (selected on the object, on the interface, and on the object inside a variant)} x schema format {SDL, introspection JSON}; every emitted field / "
+        "it without any `!` (selected on the object, on the interface, and on the object inside a variant)} x schema format {SDL, SDL that "
+        "declares the built-in scalars, introspection JSON bare and data-wrapped with all built-in and meta types}; every emitted field / "
         "variant type is compared with rule(expr): `T!` -> inner, `[T]` -> Vec<..>, nullable -> Option<..>; built-in scalar "
         "aliases read from the emitted `type X = Y;` items. Every field is distinct and non-trivial when list depth >= 1 or it is non-null")
 
@@ -148,7 +149,7 @@ def main(run):
     doc = build_doc(s, exprs)
     work = os.path.join(build.BUILD, "work", "C13-%d" % run.seed)
     os.makedirs(work, exist_ok=True)
-    renderings = {"sdl": ("graphql", render_sdl(s)), "json": ("json", render_json(s)), "json-data": ("json", render_json(s, wrapped=True, builtins="all"))}
+    renderings = {"sdl": ("graphql", render_sdl(s)), "sdl-builtins-declared": ("graphql", render_sdl(s, declare_builtins=True)), "json": ("json", render_json(s)), "json-data": ("json", render_json(s, wrapped=True, builtins="all"))}
     doc_text = render_document(doc)
     reqs = []
     for name, (ext, text) in renderings.items():
